@@ -138,7 +138,7 @@ class SchemaModel:
         name_mods, sym_mods = (self.name_modifiers, self.symbol_modifiers) if modifiers is None else modifiers
         out = []
         for u in self.unit_classes[unit_class]:
-            if u.deprecated or u.prefix:
+            if u.deprecated or u.prefix or " " in u.name:      # 'degree Celsius' (8.1/8.2) cannot be written unambiguously
                 continue
             spellings = [u.name]
             if not u.symbol and plural(u.name):
